@@ -385,6 +385,11 @@ func (s *FileSystemSigner) loadKeys(passphrase []byte) error {
 		return fmt.Errorf("failed to unmarshal public key: %w", err)
 	}
 
+	// The stored public key must be the one that belongs to the decrypted private key
+	if !privKey.GetPublic().Equals(pubKey) {
+		return fmt.Errorf("invalid key file: public key does not match the private key")
+	}
+
 	// Set the keys
 	s.privateKey = privKey
 	s.publicKey = pubKey
